@@ -20,9 +20,12 @@ use noodles_sam as sam;
 use noodles_tabix as tabix;
 use noodles_vcf as vcf;
 use tokio::io::AsyncBufReadExt;
-use vcore::{Rng, aadv::PollRead, rng::fnv1a};
+use vcore::Rng;
 
-use crate::rd::{bgzf_reader, repository};
+use crate::{
+    bread::Src,
+    rd::{bgzf_reader, repository},
+};
 
 #[derive(Clone, Debug)]
 pub enum Q {
@@ -356,8 +359,17 @@ impl Qt {
     fn err(&mut self, e: &io::Error) {
         self.out.push(format!("ERR:{:?}\u{1e}{}", e.kind(), e));
     }
-    fn pos(&mut self, v: bgzf::VirtualPosition) {
-        self.out.push(format!("V:{}", u64::from(v)));
+    /// Position of the BGZF reader after the operation: `V:` (judged, by the offset it denotes) after sequential reads and
+    /// rewinds; `P:` (measured only) after queries — a Query compares RAW virtual positions with its chunk end, so how far
+    /// the reader gets past a chunk end that lies on a member boundary depends on which of the equivalent positions it
+    /// shows at that moment (across empty members: on the schedule).
+    fn pos(&mut self, q: &Q, v: bgzf::VirtualPosition) {
+        let tag = if matches!(q, Q::Read(_) | Q::Rewind) { 'V' } else { 'P' };
+        self.out.push(format!("{tag}:{}", u64::from(v)));
+    }
+    fn bytes(&mut self, b: &[u8]) {
+        // one char per byte (latin-1): the caller needs the bytes themselves when the two sides differ
+        self.out.push(format!("B:{}", b.iter().map(|&x| x as char).collect::<String>()));
     }
 }
 
@@ -489,7 +501,7 @@ macro_rules! typed_sync {
             if failed {
                 break;
             }
-            $t.pos($r.get_ref().virtual_position());
+            $t.pos(q, $r.get_ref().virtual_position());
         }
     }};
     (@unmapped yes, $t:ident, $r:ident, $index:ident, $render:expr) => {
@@ -562,7 +574,7 @@ macro_rules! typed_async {
             if failed {
                 break;
             }
-            $t.pos($r.get_ref().virtual_position());
+            $t.pos(q, $r.get_ref().virtual_position());
         }
     }};
     (@unmapped yes, $t:ident, $r:ident, $index:ident, $render:expr) => {
@@ -703,7 +715,7 @@ pub fn run_sync(mode: Mode, data: &[u8], index_bytes: &[u8], side: &Side, querie
                 if failed {
                     break;
                 }
-                t.pos(r.get_ref().virtual_position());
+                t.pos(q, r.get_ref().virtual_position());
             }
         }
         Mode::CramCrai => {
@@ -770,7 +782,7 @@ pub fn run_sync(mode: Mode, data: &[u8], index_bytes: &[u8], side: &Side, querie
                 })();
                 match res {
                     Ok(()) => {
-                        t.out.push(format!("D:{:016x}:{}", fnv1a(&bytes), bytes.len()));
+                        t.bytes(&bytes);
                         t.end();
                     }
                     Err(e) => {
@@ -778,7 +790,7 @@ pub fn run_sync(mode: Mode, data: &[u8], index_bytes: &[u8], side: &Side, querie
                         break;
                     }
                 }
-                t.pos(r.virtual_position());
+                t.pos(q, r.virtual_position());
             }
         }
     }
@@ -787,7 +799,7 @@ pub fn run_sync(mode: Mode, data: &[u8], index_bytes: &[u8], side: &Side, querie
 
 /// The index is parsed with the SYNC index reader here too: the async index readers are compared separately, and
 /// the statement compares query results on the same file + index.
-pub async fn run_async(mode: Mode, src: PollRead, data: Vec<u8>, index_bytes: Vec<u8>, side: Side, queries: Vec<Q>, workers: usize) -> io::Result<Vec<String>> {
+pub async fn run_async(mode: Mode, src: Src, data: Vec<u8>, index_bytes: Vec<u8>, side: Side, queries: Vec<Q>, workers: usize) -> io::Result<Vec<String>> {
     let mut t = Qt { out: Vec::new() };
     match mode {
         Mode::BamBai => {
@@ -870,7 +882,7 @@ pub async fn run_async(mode: Mode, src: PollRead, data: Vec<u8>, index_bytes: Ve
                 if failed {
                     break;
                 }
-                t.pos(r.get_ref().virtual_position());
+                t.pos(q, r.get_ref().virtual_position());
             }
         }
         Mode::CramCrai => {
@@ -936,7 +948,7 @@ pub async fn run_async(mode: Mode, src: PollRead, data: Vec<u8>, index_bytes: Ve
                 };
                 match res {
                     Ok(()) => {
-                        t.out.push(format!("D:{:016x}:{}", fnv1a(&bytes), bytes.len()));
+                        t.bytes(&bytes);
                         t.end();
                     }
                     Err(e) => {
@@ -944,7 +956,7 @@ pub async fn run_async(mode: Mode, src: PollRead, data: Vec<u8>, index_bytes: Ve
                         break;
                     }
                 }
-                t.pos(r.virtual_position());
+                t.pos(q, r.virtual_position());
             }
         }
     }
